@@ -13,6 +13,7 @@ fn main() {
             "C06" | "C09" => c06::replay(body),
             "C17" => c17::replay(body),
             "C16" => c16::replay(body),
+            "C19" => c19::replay(body),
             _ => { eprintln!("no replay for {prop}"); false }
         };
         println!("reproduced={reproduced}");
@@ -33,6 +34,7 @@ fn main() {
         "C03" => c03::main(tier, seed, outdir),
         "C17" => c17::main(tier, seed, outdir),
         "C16" => c16::main(tier, seed, outdir),
+        "C19" => c19::main(tier, seed, outdir),
         _ => { eprintln!("unknown property {prop}"); std::process::exit(2); }
     }
 }
